@@ -580,3 +580,69 @@ def decide(body: list[ast.stmt], env: dict[str, bool]) -> bool | None:
             continue
         return None
     return None
+
+
+def absence_by_none(fn_node: ast.AST, containers: tuple[str, ...] = ()) -> list[tuple[ast.AST, str]]:
+    """Sites where the presence of a key is decided by comparing `<container>.get(key)` with None (or by its truth value).
+
+    Where None (or a falsy value) is a legal stored value this confuses "stored None" with "absent".  `containers`
+    restricts the receivers by substring (empty = any).  Returns (node, receiver text)."""
+    d = Defs(fn_node)
+    out: list[tuple[ast.AST, str]] = []
+
+    def is_get(e: ast.AST) -> str | None:
+        e = e.value if isinstance(e, ast.NamedExpr) else e
+        e = d.resolve(e) if isinstance(e, ast.Name) else e
+        e = e.value if isinstance(e, ast.NamedExpr) else e
+        if isinstance(e, ast.Call) and isinstance(e.func, ast.Attribute) and e.func.attr == "get" and 1 <= len(e.args) <= 2 and not e.keywords:
+            if len(e.args) == 2 and not (isinstance(e.args[1], ast.Constant) and e.args[1].value is None):
+                return None  # a sentinel default tells absence apart
+            recv = norm(e.func.value)
+            if not containers or any(c in recv for c in containers):
+                return recv
+        return None
+
+    for n in ast.walk(fn_node):
+        if isinstance(n, ast.Compare) and len(n.ops) == 1 and isinstance(n.ops[0], (ast.Is, ast.IsNot)) and isinstance(n.comparators[0], ast.Constant) and n.comparators[0].value is None:
+            r = is_get(n.left)
+            if r:
+                out.append((n, r))
+        if isinstance(n, (ast.If, ast.IfExp, ast.While)):
+            t = n.test
+            while isinstance(t, ast.UnaryOp) and isinstance(t.op, ast.Not):
+                t = t.operand
+            r = is_get(t) if isinstance(t, (ast.Name, ast.NamedExpr, ast.Call)) else None
+            if r:
+                out.append((n, r))
+    return out
+
+
+def all_merges(fn_node: ast.AST) -> list[tuple[ast.AST, list[ast.AST]]]:
+    """Every mapping merge in `fn_node` as (node, operands in increasing precedence): a | b, {**a, **b}, dict(a, **b),
+    and `x = <a>` followed by `x.update(<b>)`."""
+    d = Defs(fn_node)
+    out: list[tuple[ast.AST, list[ast.AST]]] = []
+    seen: set[int] = set()
+    for n in ast.walk(fn_node):
+        if isinstance(n, ast.BinOp) and isinstance(n.op, ast.BitOr) and id(n) not in seen:
+            ops: list[ast.AST] = []
+
+            def flat(e: ast.AST) -> None:
+                if isinstance(e, ast.BinOp) and isinstance(e.op, ast.BitOr):
+                    seen.add(id(e))
+                    flat(e.left)
+                    flat(e.right)
+                else:
+                    ops.append(d.resolve(e))
+
+            flat(n)
+            out.append((n, ops))
+        elif isinstance(n, ast.Dict) and len(n.keys) >= 2 and all(k is None for k in n.keys):
+            out.append((n, [d.resolve(v) for v in n.values]))
+        elif isinstance(n, ast.Call) and isinstance(n.func, ast.Name) and n.func.id == "dict" and len(n.args) == 1 and any(k.arg is None for k in n.keywords):
+            out.append((n, [d.resolve(n.args[0])] + [d.resolve(k.value) for k in n.keywords if k.arg is None]))
+        elif isinstance(n, ast.Call) and isinstance(n.func, ast.Attribute) and n.func.attr == "update" and isinstance(n.func.value, ast.Name) and len(n.args) == 1:
+            base = d.value.get(n.func.value.id)
+            if base is not None:
+                out.append((n, [base, d.resolve(n.args[0])]))
+    return out
